@@ -381,7 +381,10 @@ def check_real(recipe) -> list[Fail]:
         spell = [path, os.path.join(d, "sub", "..", "lib.ukv"), os.path.join(dlink, "lib.ukv")]
         procs = [
             subprocess.Popen([sys.executable, "-m", "vf.c04_proc", spell[i % 3] if recipe.get("aliases", True) else path, str(i), str(nproc), str(nsess), str(seed), d],
-                             stdout=subprocess.DEVNULL, stderr=subprocess.PIPE, env=dict(os.environ))
+                             stdout=subprocess.DEVNULL, stderr=subprocess.PIPE,
+                             # every process has its own scratch / data / backup / log directories (as jobs on a cluster do); MOLLI_HOME and
+                             # with it the shared directory are common to all of them
+                             env=dict(os.environ, **{f"MOLLI_{v}_DIR": os.path.join(d, f"priv{i}", v.lower()) for v in ("SCRATCH", "DATA", "BACKUP", "LOG")}))
             for i in range(nproc)
         ]
         deadline = time.time() + 240
